@@ -333,7 +333,23 @@ func faultCmd(args []string) int {
 			c.cache = 0
 		}
 		progressLine(fmt.Sprintf("CASE %d", i))
+		nf := len(st.Failures)
 		c.run()
+		if c.failed && c.cache > 0 && len(st.Failures) > nf && knownIDs["F22"] {
+			// differential attribution (see the vac stream): the same program again without a node cache; only a
+			// failure that survives that is reported as new, the rest is the dependency defect F22
+			r2 := root.Fork(i)
+			b2, store2 := sqlh.Bucket()
+			c2 := &faultCase{st: NewStats("fault-recheck", *seed), r: r2, id: c.id + "-nocache", bucket: b2, store: store2, epn: gen.Pick(r2, []int{2, 4, 4096}), cache: gen.Pick(r2, []int{0, 1000})}
+			c2.cache = 0
+			progressLine(fmt.Sprintf("CASE %d again without a node cache", i))
+			c2.run()
+			if !c2.failed {
+				st.Failures = st.Failures[:nf]
+				st.known("F22")
+				st.Count("known_F22_only_with_node_cache")
+			}
+		}
 		st.Cases++
 		if i < 1 {
 			st.Sample(c.log)
